@@ -336,5 +336,23 @@ impl Check for C03 {
 }
 
 fn main() {
+    // triage aid: `c03 --dump <feature substring>` prints the first two quick programs with it
+    let args: Vec<String> = std::env::args().collect();
+    if args.get(1).map(|s| s.as_str()) == Some("--dump") {
+        let want = args.get(2).cloned().unwrap_or_default();
+        let mut n = 0;
+        for c in cases(Tier::Quick) {
+            let p = prog_of(c);
+            if p.features.iter().any(|f| f.contains(&want)) {
+                println!("// {:?} {:?}\n{}", c.sig, p.features, p.src.split("fn payd").nth(1).map(|x| x.split_once('\n').map(|y| y.1).unwrap_or(x)).unwrap_or(&p.src));
+                n += 1;
+                if n == 2 {
+                    break;
+                }
+            }
+        }
+        println!("// {n} shown");
+        return;
+    }
     vcore::main(&C03)
 }
